@@ -21,7 +21,7 @@ import (
 	"verif/internal/progcheck"
 )
 
-const rule = "case = generated program with scoping, closure, container and object sections over a bounded name set; non-trivial = at least one of: a closure called after its defining call returned; a name shadowed (let / parameter) and read on both sides; a container written through one path and read through another (alias, parameter, nested path); a numeric-key write or delete on a map; an object with >= 1 super template; distinct by source text"
+const rule = "case = generated program with scoping, closure, container and object sections over a bounded name set; non-trivial = at least one of: a closure called after its defining call returned; a name shadowed (let / parameter) and read on both sides; a container written through one path and read through another (alias, parameter, nested path); a numeric-key write or delete on a map; a read-after-write check through an unusual index/key (negative, out of range, fractional, numeric-looking text, dotted, null); an object with >= 1 super template; distinct by source text"
 
 // Case is one program.
 type Case struct {
@@ -359,7 +359,7 @@ func (g *gen) containers() []*lang.S {
 	}
 	n := 3 + g.pick(10, "cn")
 	for i := 0; i < n; i++ {
-		switch g.pick(14, "ck") {
+		switch g.pick(15, "ck") {
 		case 0:
 			newList()
 		case 1:
@@ -481,6 +481,22 @@ func (g *gen) containers() []*lang.S {
 					out = append(out, &lang.S{K: "for", Vars: []string{kv, vv}, E: lang.Var(c.name), Body: []*lang.S{lang.Rec(lang.Var(kv)), lang.Rec(lang.Var(vv))}})
 				}
 			}
+		case 13: // read-after-write through unusual indices / keys on a fresh container (the write may fail; if it succeeds the same expression reads the value back)
+			nm := g.uniq("rw")
+			if g.flip("rwlist") {
+				n := 1 + g.pick(4, "rwn")
+				l := lang.List()
+				for i := 0; i < n; i++ {
+					l.A = append(l.A, num(i))
+				}
+				idx := []*lang.E{lang.Op("minus", num(1+g.pick(n+2, "neg"))), num(n + g.pick(2, "past")), lang.Num("0.5"), lang.Str("1"), lang.Str("x"), lang.Null(), num(g.pick(n, "ok")), lang.Num("1e+30")}[g.pick(8, "rwidx")]
+				out = append(out, lang.Assign(lang.Var(nm), l), lang.RW(g.uniq("rwl"), lang.Idx(lang.Var(nm), idx), g.scalar()))
+			} else {
+				m := lang.MapLit(num(1), lang.Str("one"), lang.Str("k"), num(2))
+				key := []*lang.E{lang.Str("1"), num(1), lang.Str("a.b"), lang.Num("1.5"), lang.Op("minus", num(1)), lang.Str(""), lang.Str("2"), num(2), lang.Bool(true), lang.Null(), lang.Str("k")}[g.pick(11, "rwkey")]
+				out = append(out, lang.Assign(lang.Var(nm), m), lang.RW(g.uniq("rwm"), lang.Idx(lang.Var(nm), key), g.scalar()))
+			}
+			g.tag("read-after-write-unusual-key")
 		default:
 			if c := pickVar([]string{"list", "map"}[g.pick(2, "lk")]); c != nil {
 				out = append(out, lang.Rec(lang.Call(lang.Var("len"), lang.Var(c.name))))
@@ -623,7 +639,7 @@ func genCase(rt *rapid.T) Case {
 		p.Body = append(p.Body, lang.Probe("final-"+n, n))
 	}
 	var tags []string
-	for _, t := range []string{"shadow-let", "shadow-param", "closure-after-return", "alias", "param-reference", "nested-path", "numeric-map-key", "object-with-super"} {
+	for _, t := range []string{"shadow-let", "shadow-param", "closure-after-return", "alias", "param-reference", "nested-path", "numeric-map-key", "object-with-super", "read-after-write-unusual-key"} {
 		if g.tags[t] {
 			tags = append(tags, t)
 		}
